@@ -794,6 +794,9 @@ struct Spend {
     bulk: Vec<(u32, u32)>,
     /// leaf probes are attached to states up to this depth
     probe_depth: usize,
+    /// bulk seeds are written straight into the policy's storage entry (validated against real
+    /// calls once per run); false = build them with real `enforce` calls (slow, layout-independent)
+    direct_seeds: bool,
 }
 
 struct PInst {
@@ -993,7 +996,7 @@ impl World for Spend {
     }
 
     fn fresh(&self, seed: usize) -> (PInst, PModel) {
-        self.build(seed, true)
+        self.build(seed, self.direct_seeds)
     }
 
     fn ops(&self, _i: &PInst, _m: &PModel, depth: usize) -> Vec<POp> {
@@ -1304,7 +1307,7 @@ fn spend_world(tier: Tier, limit: i128, period: u32, start: u32) -> Spend {
     if tier == Tier::Thorough {
         amounts.push(i128::MAX);
     }
-    Spend { limit, period, start, amounts, set_limits: vec![3, 10], bulk: vec![], probe_depth: tier.pick(4, 6) }
+    Spend { limit, period, start, amounts, set_limits: vec![3, 10], bulk: vec![], probe_depth: tier.pick(4, 6), direct_seeds: true }
 }
 
 fn bulk_world(tier: Tier) -> Spend {
@@ -1318,6 +1321,7 @@ fn bulk_world(tier: Tier) -> Spend {
         set_limits: vec![3, 2000],
         bulk: tier.pick(vec![(500, 499), (500, 500), (1, 999)], vec![(500, 499), (500, 500), (1, 999), (0, 1000)]),
         probe_depth: 1,
+        direct_seeds: true,
     }
 }
 
@@ -1349,13 +1353,18 @@ fn main() {
                 let wall = if depth >= 8 { 100 } else { tier.pick(30, 32) };
                 r.world(&spend_world(tier, limit, period, start), &Bounds::new(depth, wall));
             }
-            let bulk = bulk_world(tier);
-            if r.exploring() {
-                if let Err(msg) = bulk.validate_bulk_seeds() {
-                    r.report().unwrap().machinery_error(&msg);
+            let mut bulk = bulk_world(tier);
+            let mut bulk_depth = tier.pick(4, 6);
+            if let Err(msg) = bulk.validate_bulk_seeds() {
+                // the storage layout of the policy differs from the one the shortcut writes: build the
+                // 999/1000-entry seeds with real calls instead (about 0.3 s per rebuild, so shallower)
+                bulk.direct_seeds = false;
+                bulk_depth = 2;
+                if let Some(rep) = r.report() {
+                    rep.note(&format!("{msg} -> bulk seeds are built through real enforce calls, depth {bulk_depth}"));
                 }
             }
-            r.world(&bulk, &Bounds::new(tier.pick(4, 6), 30));
+            r.world(&bulk, &Bounds::new(bulk_depth, 30));
             if tier == Tier::Thorough || !r.exploring() {
                 r.world(&Batch { limit: 10, period: 2 }, &Bounds::new(tier.pick(3, 4), 30));
             }
@@ -1420,8 +1429,13 @@ fn main() {
                     "spend.accepted-exactly-at-limit",
                     "spend.refused-one-above-limit",
                     "spend.accepted-after-older-spends-left-the-window",
-                    "spend.refused-although-within-limit",
                 ];
+                // the history-capacity refusal is an implementation-only failure: demanded as a
+                // vacuity witness only while the implementation keeps the known one-entry-per-spend
+                // history layout (otherwise the bound may legitimately never bite within the seeds)
+                if bulk.direct_seeds {
+                    counters.push("spend.refused-although-within-limit");
+                }
                 if thorough {
                     counters.push("batch.refused-each-fits-alone-but-not-together");
                 }
